@@ -47,6 +47,10 @@ func (r *c08Run) writer(c c08WCase) {
 	}
 	// once Close has returned nothing of the pipeline may be left: no callback may arrive later (virtual time passes in between)
 	quietAfterClose := func(where string) bool {
+		if n, g := inst.Stragglers("github.com/pierrec/lz4/v4"); n > 0 {
+			r.fail = stat.Failf("C08/writer/goroutines-remain-when-close-has-returned", "%s: %d goroutine(s) started by the library still exist after Close returned, e.g.\n%s", where, n, g)
+			return false
+		}
 		snap := calls.Load()
 		time.Sleep(time.Second)
 		if late := calls.Load() - snap; late != 0 {
@@ -347,6 +351,14 @@ func (r *c08Run) reader(c c08RCase) {
 		}
 		if err == io.EOF {
 			err = nil
+		}
+	}
+	// the Reader has reached the end of the stream or reported an error: no goroutine it started may remain (a failing
+	// WriteTo destination is not among the listed endings and is left to the final leak verdict)
+	if c.SinkFail == 0 {
+		if n, g := inst.Stragglers("github.com/pierrec/lz4/v4"); n > 0 {
+			r.fail = stat.Failf("C08/reader/goroutines-remain-when-the-reader-has-finished", "frame %s, concurrency %d, writeto=%v: the Reader returned %v after %d bytes and %d goroutine(s) started by the library still exist, e.g.\n%s", c.Frame.Kind, c.Conc, c.WriteTo, err, len(out), n, g)
+			return
 		}
 	}
 	r.blocks = len(fr.Blocks)
